@@ -29,7 +29,7 @@ ENGINE_INFO = {
 }
 
 THR_RULE = ("each run draws n (2..12, thorough also 8,9,16,17,24,25,64,65,200,254), t in {1,(n-1)/2,n-1,random}, seed, message, tag, up to 3 Byzantine signers, 1-3 collectors each in a mode "
-            "(VerifyAndAdd, VerifyShare+TrustedAdd, blind TrustedAdd, stateless list), per-message drop/duplicate/out-of-range-origin faults and the complete delivery order from the choice stream; "
+            "(VerifyAndAdd, VerifyShare+TrustedAdd, blind TrustedAdd, mixed VerifyAndAdd/TrustedAdd per arrival, stateless list), per-message drop/duplicate/out-of-range-origin faults and the complete delivery order from the choice stream; "
             "Byzantine shares: other signer's share, signature of another message, point outside G1, off-curve x, x>=p, cleared compression bit, infinity, negated, lengths 0/47/49, random bytes. "
             "Non-trivial = a fault fired or a non-FIFO delivery was chosen; distinct = distinct hash of (n,t,collector modes, per-delivery (mode, share kind, origin fault))")
 THR_REAL = ["BLSThresholdKeyGen, NewBLSThresholdSignatureParticipant/Inspector, SignShare, VerifyShare, TrustedAdd, VerifyAndAdd, HasShare, EnoughShares, ThresholdSignature, VerifyThresholdSignature, BLSReconstructThresholdSignature incl. the C layer (real code, unmodified)"]
@@ -53,9 +53,10 @@ CHECKS = {
         "batches": [
             {"engine": "dkgsim", "mode": "", "runs": {"quick": 32000, "thorough": 700000}, "budget": {"quick": 75, "thorough": 1500}},
             {"engine": "dkgsim", "mode": "adv", "runs": {"quick": 12000, "thorough": 300000}, "budget": {"quick": 45, "thorough": 1200}},
+            {"engine": "dkgsim", "mode": "wide", "runs": {"quick": 32, "thorough": 3200}, "budget": {"quick": 60, "thorough": 1500}, "det": False},
             {"engine": "dkgsim", "mode": "big", "runs": {"quick": 0, "thorough": 160}, "budget": {"quick": 0, "thorough": 1500}, "det": False},
         ],
-        "rule": PROTO_RULE + "; mode adv = adversarial templates (the single dealer is Byzantine, every Byzantine participant misbehaves systematically per message kind, its vector is mostly held back and sent last in the round); mode big = Joint-Feldman with n in 16..32",
+        "rule": PROTO_RULE + "; mode adv = adversarial templates (the single dealer is Byzantine, every Byzantine participant misbehaves systematically per message kind, its vector is mostly held back and sent last in the round); mode wide = single-dealer protocols with n in {128..131,160,200,253,254} and t <= 3 (participant indices beyond 127); mode big = Joint-Feldman with n in 16..32",
         "time_unit": "protocol rounds (3 per run), timer events and message deliveries",
         "real": DKG_REAL, "stub": DKG_STUB, "assumptions": DKG_ASSUME,
         "expected_probes": ["dkg_succeeded", "dkg_failed", "jf_failed", "honest_complaint", "threshold_signature_checked", "groupkey_recomputed_from_vectors", "exactly_t_complaints", "t_plus_1_complaints", "vector_late", "vector_malformed_first"],
@@ -65,8 +66,9 @@ CHECKS = {
             {"engine": "dkgsim", "mode": "", "runs": {"quick": 32000, "thorough": 700000}, "budget": {"quick": 60, "thorough": 1500}},
             {"engine": "dkgsim", "mode": "adv", "runs": {"quick": 12000, "thorough": 300000}, "budget": {"quick": 45, "thorough": 1200}},
             {"engine": "dkgsim", "mode": "fvss", "runs": {"quick": 20000, "thorough": 300000}, "budget": {"quick": 30, "thorough": 900}},
+            {"engine": "dkgsim", "mode": "wide", "runs": {"quick": 32, "thorough": 3200}, "budget": {"quick": 60, "thorough": 1500}, "det": False},
         ],
-        "rule": PROTO_RULE + "; mode adv = adversarial templates (the single dealer is Byzantine, every Byzantine participant misbehaves systematically per message kind, its vector is mostly held back and sent last in the round); mode fvss = plain Feldman VSS worlds only (every order of vector and share deliveries, every malformation kind)",
+        "rule": PROTO_RULE + "; mode adv = adversarial templates (the single dealer is Byzantine, every Byzantine participant misbehaves systematically per message kind, its vector is mostly held back and sent last in the round); mode wide = single-dealer protocols with n in {128..131,160,200,253,254} and t <= 3; mode fvss = plain Feldman VSS worlds only (every order of vector and share deliveries, every malformation kind)",
         "time_unit": "protocol rounds (3 per run), timer events and message deliveries",
         "real": DKG_REAL, "stub": DKG_STUB,
         "assumptions": DKG_ASSUME + ["must-disqualify expectations are derived from the mutator's labels (which polynomial a vector/share/answer belongs to), never by recomputing curve points"],
